@@ -10,6 +10,7 @@ IMPORTS = "Model.Tools Check.C20"
 PER_VM_TOOLS = ["check", "get", "set", "unset", "push", "pop", "clean", "collect", "create"]
 PER_WORKER_TOOLS = ["boot", "shutdown"]
 ACTION = {"clean": "unset", "collect": "get", "create": "set"}
+all_vms = {"vm1": "only CentOS\n", "vm2": "only Win10\n", "vm3": "only Ubuntu\n"}
 
 
 def impl_chain(outs, names=None):
@@ -71,8 +72,61 @@ def impl_tool(tool, vm_strs, nets, rng, extra=None, failing=False):
     return ret, rec.calls
 
 
+def impl_real_chain(tools, vm_strs, nets, rng):
+    """the steps of a chain as Manu.run runs them: one after the other on ONE shared config; returns per step the multiset of
+    (worker, vms, vm_action) of the nodes it executed"""
+    from avocado_i2n import intertest_setup
+    config = toolseam.base_config(vm_strs, nets)
+    per_step = []
+    with toolseam.Recorder(rng) as rec:
+        for k, tool in enumerate(tools):
+            before = len(rec.calls)
+            try:
+                getattr(intertest_setup, tool)(config, tag=f"0m{k}")
+            except Exception as e:
+                per_step.append([("error", repr(e)[:80], "")])
+                continue
+            per_step.append(sorted((c[1], c[3].get("vms", ""), c[3].get("vm_action", "")) for c in rec.calls[before:] if c[0] == "run"))
+    return per_step
+
+
+def real_chain_part(ctx, rng, replay=None):
+    """C20 'with the step's parameters applied' inside chains: every step of a chain of real tools executes what the same step
+    executes when it is run alone on a fresh configuration"""
+    tools_all = PER_VM_TOOLS[:6] + PER_WORKER_TOOLS + ["clean"]
+    if replay:
+        chains = [(replay["data"]["real_chain"], replay["data"]["vms"], replay["data"]["nets"])]
+    else:
+        chains = [(["unset", "shutdown"], ["vm1"], "net1"), (["get", "unset", "check", "boot"], ["vm1", "vm3"], "net1 net2")]
+        for _ in range(12 if ctx.thorough else 3):
+            chains.append(([rng.choice(tools_all) for _ in range(rng.randint(2, 4))], rng.choice([["vm1"], ["vm1", "vm3"], ["vm2"]]),
+                           rng.choice(["net1", "net1 net2"])))
+    alone = {}
+    bad = []
+    for tools, sel, nets in chains:
+        vm_strs = {v: all_vms[v] for v in sel}
+        got = impl_real_chain(tools, vm_strs, nets, rng)
+        for k, tool in enumerate(tools):
+            key = (tool, tuple(sel), nets)
+            if key not in alone:
+                alone[key] = impl_real_chain([tool], vm_strs, nets, rng)[0]
+            if got[k] != alone[key]:
+                bad.append({"real_chain": tools, "vms": sel, "nets": nets, "step": k, "tool": tool, "in_chain": got[k], "alone": alone[key]})
+                break
+    ctx.obligation("monitor:chain-steps-behave-as-alone", "monitor", not bad,
+                   f"{len(bad)} of {len(chains)} chains of real tools contain a step that executes something else than when run alone")
+    for b in bad[:1]:
+        ctx.fail("C20:chain-step-differs-from-step-alone",
+                 f"in the chain {' '.join(b['real_chain'])} the step {b['tool']} (position {b['step']}) executed {b['in_chain']} instead of {b['alone']}",
+                 b, True)
+    ctx.count(len(chains), sum(1 for c in chains if len(c[0]) > 2))
+
+
 def run(ctx, replay=None):
     rng = ctx.rng
+    if replay and "real_chain" in replay["data"]:
+        real_chain_part(ctx, rng, replay)
+        return
     # ---- chains
     outs_pool = [None, 0, 1, 2, "raise"]
     chains = []
@@ -113,7 +167,6 @@ def run(ctx, replay=None):
         ctx.sample({"outs": chains[-1], "impl": results[-1]})
     # ---- the tools
     I = Interner()
-    all_vms = {"vm1": "only CentOS\n", "vm2": "only Win10\n", "vm3": "only Ubuntu\n"}
     selections = [["vm1"], ["vm2"], ["vm1", "vm3"], ["vm1", "vm2", "vm3"]]
     netsets = ["net1", "net1 net2", "net1 net2 net3", "cluster1.net6 cluster1.net7"]
     runs = []
@@ -192,6 +245,8 @@ def run(ctx, replay=None):
                       "wrong": obs_all[k][2], "obligation": "monitor:once-per-selected-vm-and-worker"}, True)
         ctx.count(len(runs), sum(1 for t, s, n in runs if len(n.split()) > 1 and len(s) > 1))
         ctx.coverage["tools_run"] = sorted({t for t, s, n in runs})
+    if not replay:
+        real_chain_part(ctx, rng)
     ctx.coverage["rule"] = ("chains: every sequence of up to 3 step outcomes over {None, 0, 1, 2, raise} (exhaustive) plus random chains of 4-9 steps through the real "
                             "Manu.run with stub steps; tools: check/get/set/unset/push/pop/clean (one node per vm and worker) and boot/shutdown (one node per "
                             "worker) x 4 vm selections x 4 worker sets (incl. a remote cluster), run through the real intertest_setup functions with "
